@@ -1285,6 +1285,9 @@ fn totality(rep: &mut Report, thorough: bool) {
         ("head-never-ends", b"HTTP/1.1 200 OK\r\nX-Long: ".to_vec(), b"aaaaaaaaaaaaaaaaaaaaaaaaaaaaaaaaaaaaaaaaaaaaaaaaaaaaaaaaaaaaaaaa".to_vec()),
         ("headers-never-end", b"HTTP/1.1 200 OK\r\n".to_vec(), b"X-A: bbbbbbbbbbbbbbbbbbbbbbbbbbbbbbbbbbbbbbbbbbbbbbbbbbbbbbbbbbbbbbbbbbbbbbbbbbbbbbbbbbbbbbbbbbbbbbbbbbbbbbbbbbbbbbbbbbbbbbbbbbbbbbbbbbbbbbbbbbbbbbbbbbbbbbbbbbbbbbbbbbbbbbbbbbbbbbbbbbbbbbbbbbbbbbbbbbbbbbbbbbbbbbbbbbbbbbbbbbbbbbbbbbbbbbbbbbbbbbbbbbbbbbbbbbbbbbbbbbbbbbbbbbbbbbbbbbbbbbbbbbbbbbbbbbbbbbbbbbbbbbbbbbbbbbbbbbbbbbbbbbbbbbbbbbbbbbbbbbbbbbbbbbbbbbbbbbbbbbbbbbbbbbbbbbbbbbbbbbbbbbbbbbbbbbbbbbbbbbbbbbbbbbbbbbbbbbbbbbbbbbbbbbbbbbbbbbbbbbbbbbbbbbbbbbbbbbbbbbbbbbbbbbbbbbbbbbbbbbbbbbbbbbbbbbbbbbbbbbbbbbbbbbbbbbbbbbbbbbbbbbbbbbbbbbbbbbbbbbbbbbbbbbbbbb\r\n".to_vec()),
         ("chunk-ext-never-ends", format!("{}1;", te).into_bytes(), b"eeeeeeeeeeeeeeeeeeeeeeeeeeeeeeeeeeeeeeeeeeeeeeeeeeeeeeeeeeeeeeee".to_vec()),
+        ("chunk-size-zeros-never-end", te.to_string().into_bytes(), b"0000000000000000000000000000000000000000000000000000000000000000".to_vec()),
+        ("trailer-line-never-ends", format!("{}1\r\na\r\n0\r\nX-Trailer: ", te).into_bytes(), b"tttttttttttttttttttttttttttttttttttttttttttttttttttttttttttttttt".to_vec()),
+        ("trailer-lines-never-end", format!("{}0\r\n", te).into_bytes(), b"X-T: uuuuuuuuuuuuuuuuuuuuuuuuuuuuuuuuuuuuuuuuuuuuuuuuuuuuuuuuuu\r\n".to_vec()),
     ] {
         rep.eval();
         let sc = clone_sc(&h2);
